@@ -121,6 +121,9 @@ def exec_loop_paths(interp, s, frame, state):
     try:
         with use_state(state):
             _symbolic_for(interp, s, frame, state, space)
+    except Fork as f:
+        # an undecided condition about the loop bounds (zero-trip test): split the path and redo the loop on both sides
+        return interp._split(f, fr0, st0, lambda fr, st: exec_loop_paths(interp, s, fr, st), 0)
     except PyRaise as e:
         return [(frame, state, ("raise", e.exc_type, e.msg))]
     return [(frame, state, ("normal",))]
@@ -421,8 +424,8 @@ def _symbolic_for(interp, s, frame, state, space):
         else:
             goals.extend(_cell_eq_goals(st2.heap[sid], heap_n[sid]))
     assum = st2.all_assumptions()
-    if goals:
-        st.side.append(_SideGoal("loop-step", z3.And(*goals) if len(goals) > 1 else goals[0], assum, where))
+    for g in goals:     # one query per carried variable / array cell (small queries)
+        st.side.append(_SideGoal("loop-step", g, assum, where))
     # init check: state(lo) == pre-state
     env_0, heap_0 = state_at(lo)
     goals0 = []
@@ -440,8 +443,8 @@ def _symbolic_for(interp, s, frame, state, space):
                 goals0.append(z3.Implies(z3.And(*rng) if rng else z3.BoolVal(True), g))
         else:
             goals0.extend(_cell_eq_goals(c, heap_0[sid]))
-    if goals0:
-        st.side.append(_SideGoal("loop-init", z3.And(*goals0) if len(goals0) > 1 else goals0[0], st.all_assumptions(), where))
+    for g in goals0:
+        st.side.append(_SideGoal("loop-init", g, st.all_assumptions(), where))
     # ---- post-state
     env_f, heap_f = state_at(hi)
     frame.env.clear()
